@@ -618,6 +618,34 @@ def _minmax(I, self, args, kw, fr, site, ismin):
         if I.st.proves(y <= x):
             return VInt(simp(y if ismin else x))
         return VInt(simp(z3.If(x <= y, x, y) if ismin else z3.If(x >= y, x, y)))
+    if len(args) == 1 and isinstance(args[0], VOpaque) and args[0].tag == "Filtered" and not kw:
+        # max / min of the selected elements of an abstract int sequence: some selected element that bounds all selected ones
+        st = I.st
+        r = args[0]
+        n, i0, elem_at = filtered_info(I, r)
+        d = st.filtered[str(r.t)]
+        if not fr.spec and not st.decide(n > 0):
+            I.raise_py("ValueError", "max() arg is an empty sequence", site)
+        xs, pred, pfr, psite = d["xs"], d["pred"], d["fr"], d["site"]
+        from . import loops
+        _, L = loops.symbolic_iter(I, xs, pfr)
+        L = zint(L)
+        im = st.fresh_int("extremum_idx")
+        j = z3.Int(st.fresh_name("q_mj"))
+
+        def P(idx):
+            n0 = len(st.pc)
+            t = zbool(I.truthy(call_value(I, pred, [elem_at(idx)], {}, pfr, psite)))
+            del st.pc[n0:]
+            return t
+        m = elem_at(im)
+        if not isinstance(m, VInt):
+            raise Unsupported("min/max of a filtered sequence of %s" % I.type_name(m))
+        ej = zint(elem_at(j).t)
+        st.assume(z3.And(0 <= im, im < L, P(im)))
+        st.assume(z3.ForAll([j], z3.Implies(z3.And(0 <= j, j < L, P(j)), (ej >= zint(m.t)) if ismin else (ej <= zint(m.t)))))
+        I.E.trusted_used.add("max/min of a filtered abstract sequence: a selected element bounding every selected element")
+        return m
     raise Unsupported("min/max of %s" % [I.type_name(a) for a in args])
 
 
